@@ -118,7 +118,7 @@ func tier(run *vf.Run) tierCfg {
 			bs(1, 4096, 0, true, true),
 			bs(2, rot[r], 1, false, false),
 		},
-		every: 0, sample: 24, maxFrames: 2, chunk: 120,
+		every: 0, sample: 24, maxFrames: 2, chunk: 200,
 		schedsPer: 20, groupSize: 5, groupsPer: 1, integPages: 1,
 	}
 }
@@ -141,12 +141,16 @@ func cases(run *vf.Run) ([]json.RawMessage, error) {
 			return nil, err
 		}
 	}
-	var faults, rest []json.RawMessage
+	// Order of the list = order of dispatch: truncation batches first (while
+	// the decoder panic of DESIGN §5 F6 is unrepaired each of them costs eight
+	// process restarts, so they are the long poles), then the sleep-bound fault
+	// schedules, then everything else.
+	var truncs, faults, rest []json.RawMessage
 	for bi, m := range metas {
 		fp := m.fingerprint()
 		rng := rand.New(rand.NewSource(vf.SubSeed(run.Seed, "C10-cases", bi)))
 
-		// (b) fault schedules first in the list: they sleep, the rest computes
+		// (b) fault schedules
 		scheds := genScheds(rng, m, cfg.schedsPer)
 		var groups [][]sched
 		for i := 0; i < len(scheds); i += cfg.groupSize {
@@ -163,17 +167,22 @@ func cases(run *vf.Run) ([]json.RawMessage, error) {
 			for _, op := range []string{"trunc", "flip"} {
 				offs := f.offsets(rng, cfg.every, cfg.sample, cfg.maxFrames, f.Size)
 				for i := 0; i < len(offs); i += cfg.chunk {
-					rest = append(rest, vf.Spec(outer{Base: m.Spec, Fp: fp, Kind: "corrupt", File: fi, Name: f.name(), Op: op,
-						Offs: offs[i:min(i+cfg.chunk, len(offs))], MaskSeed: vf.SubSeed(run.Seed, "C10-mask", bi, fi)}))
+					sp := vf.Spec(outer{Base: m.Spec, Fp: fp, Kind: "corrupt", File: fi, Name: f.name(), Op: op,
+						Offs: offs[i:min(i+cfg.chunk, len(offs))], MaskSeed: vf.SubSeed(run.Seed, "C10-mask", bi, fi)})
+					if op == "trunc" {
+						truncs = append(truncs, sp)
+					} else {
+						rest = append(rest, sp)
+					}
 				}
 			}
 		}
 
 		if bi == 0 {
-			// the one full-width flip of a size prefix's top byte (see maskFor)
+			// the one high-bit flip of a size prefix's top byte (see maskFor)
 			f := m.Files[m.Plan[0]]
 			rest = append(rest, vf.Spec(outer{Base: m.Spec, Fp: fp, Kind: "corrupt", File: m.Plan[0], Name: f.name(), Op: "flip",
-				Offs: []int64{f.Frames[0] + 6}, Masks: []byte{0xFF}}))
+				Offs: []int64{f.Frames[0] + 6}, Masks: []byte{0x10}}))
 		}
 
 		// (c) integrity
@@ -197,7 +206,7 @@ func cases(run *vf.Run) ([]json.RawMessage, error) {
 		pre = append(pre, preSpec{Variant: "file", Pin: true, Corrupt: true}, preSpec{Variant: "empty", Pin: true, Integrity: "full", Corrupt: true})
 		rest = append(rest, vf.Spec(outer{Base: m.Spec, Fp: fp, Kind: "preexist", Pre: pre}))
 	}
-	return append(faults, rest...), nil
+	return append(append(truncs, faults...), rest...), nil
 }
 
 // genScheds draws n fault schedules for a base: targets rotate over the plan
@@ -240,8 +249,10 @@ func genScheds(rng *rand.Rand, m *baseMeta, n int) []sched {
 // allocates whatever the prefix says before reading (ltx decoder.go,
 // make([]byte, dataSize)), so mask 0xFF there means a 4 GiB zeroed allocation
 // per restore - times 16 workers that would endanger the host and every other
-// job on it. The full-width flip of that byte is exercised by one dedicated,
-// single item per run instead (see cases).
+// job on it (one such restore was seen to take from 0.2 s to more than 3 min
+// depending on host load). A 256 MiB variant (mask 0x10) is exercised by one
+// dedicated, single item per run instead (see cases) and counted as an
+// observation.
 func maskFor(seed, off int64, sizeTop bool) byte {
 	h := fnv.New32a()
 	fmt.Fprint(h, seed, "|", off)
